@@ -238,6 +238,8 @@ namespace photon
         LS_MUTEX_HANDOFF = 20, LS_SEM_ADD = 21, LS_SEM_SUB = 22, LS_RWLOCK_STATE = 23,
         LS_SEM_RESUME = 24,
         LS_TH_DISPOSE = 25, LS_MUTEX_CAS = 26,
+        LS_LOCK_WANT = 3,   // about to enter the acquisition loop of spinlock::lock()
+        LS_LOCK_FREE = 4,   // the releasing store of spinlock::unlock() has been executed
     };
     extern "C" __attribute__((weak)) void (*photon_verif_ls_cb)(int id, const void* obj, const void* l1, const void* l2);
     // (id, object accessed, the lock(s) that the code's own rules say protect this access)
@@ -252,6 +254,7 @@ namespace photon
         int lock() {
             uint32_t delay = 1;
             constexpr uint32_t max_delay = 1024;
+            PHOTON_VERIF_LS(LS_LOCK_WANT, this, 0, 0);
             while (unlikely(xchg())) {
                 do {
                     spin_wait_n(delay);
@@ -275,6 +278,7 @@ namespace photon
         void unlock() {
             PHOTON_VERIF_LS(LS_LOCK_REL, this, 0, 0);
             _lock.store(false, std::memory_order_release);
+            PHOTON_VERIF_LS(LS_LOCK_FREE, this, 0, 0);
         }
     protected:
         std::atomic_bool _lock = {false};
